@@ -72,7 +72,74 @@ func (a *advSim) byzAct2() {
 	if r.Chance(35) {
 		to = a.someHonest(1 + r.Intn(len(hs)))
 	}
-	switch r.Intn(3) {
+	switch r.Intn(4) {
+	case 3: // genuinely prepared value re-proposed; justification lists with REPEATED entries (length ≠ number of distinct signers)
+		type key struct {
+			r    specqbft.Round
+			root [32]byte
+		}
+		groups := map[key][]*specqbft.SignedMessage{}
+		for _, m := range mat {
+			if m.Message.MsgType == specqbft.PrepareMsgType && len(m.Signers) == 1 && m.Message.Round < rd && sigOk(a.env, m) &&
+				string(m.Message.Identifier) == string(a.env.identifier) && m.Message.Height == a.h {
+				k := key{m.Message.Round, m.Message.Root}
+				dup := false
+				for _, x := range groups[k] {
+					dup = dup || x.Signers[0] == m.Signers[0]
+				}
+				if !dup {
+					groups[k] = append(groups[k], m)
+				}
+			}
+		}
+		var best key
+		for k, g := range groups {
+			if len(g) > len(groups[best]) || (len(g) == len(groups[best]) && k.r > best.r) {
+				best = k
+			}
+		}
+		preps := groups[best]
+		for _, b := range ids { // the Byzantine operators add their own prepares
+			have := false
+			for _, x := range preps {
+				have = have || x.Signers[0] == b
+			}
+			if !have && best.r != 0 {
+				preps = append(preps, a.f.prepare(b, best.r, best.root))
+			}
+		}
+		var val []byte
+		for _, v := range append(append([][]byte{}, a.values...), valB) {
+			if sha256.Sum256(v) == best.root {
+				val = v
+			}
+		}
+		if val == nil || len(preps) < 2 {
+			return
+		}
+		var rcs []*specqbft.SignedMessage
+		for _, b := range ids {
+			rcs = append(rcs, a.f.roundChange(b, rd, best.r, val, preps))
+		}
+		rcs = append(rcs, unpreparedRCs(mat, rd, map[spectypes.OperatorID]bool{})...)
+		pj, how := repeatMsgs(r, preps, a.env.q, a.env.n)
+		rcj := rcs
+		if r.Chance(30) {
+			rcj, _ = repeatMsgs(r, rcs, a.env.q, a.env.n)
+			how += "+round-changes"
+		}
+		if r.Chance(25) { // the round-changes' own prepare justifications repeated as well
+			rcj = nil
+			in, _ := repeatMsgs(r, preps, a.env.q, a.env.n)
+			for _, b := range ids {
+				rcj = append(rcj, a.f.roundChange(b, rd, best.r, val, in))
+			}
+			rcj = append(rcj, unpreparedRCs(mat, rd, map[spectypes.OperatorID]bool{})...)
+			how += "+inner"
+		}
+		a.tags = append(a.tags, "byz/justification-with-repeated-entries", "byz/repeated:"+how)
+		a.sendDirect(enc(a.f.proposal(ld, rd, val, rcj, pj)), to)
+		a.pushDecision(rd, val, to)
 	case 0: // justified by round-changes of OTHER rounds (older, newer, mixed)
 		seen := map[spectypes.OperatorID]bool{}
 		var rcs []*specqbft.SignedMessage
